@@ -34,14 +34,25 @@ pub enum Policy {
 
 #[derive(Clone, Debug, Serialize, Deserialize)]
 pub struct Job16 {
+    /// false: this frame is written at level Uncompressed (the matcher is only reset and asked for spaces)
+    #[serde(default = "yes")]
+    pub fastest: bool,
     pub content: Content,
     /// parse policy per block (cyclic)
     pub policies: Vec<Policy>,
     pub chunks: Vec<u32>,
 }
 
+fn yes() -> bool {
+    true
+}
+
 #[derive(Clone, Debug, Serialize, Deserialize)]
 pub struct C16Plan {
+    /// the window the matcher advertises after reset(Uncompressed) (0 = the same as `window`): the trait allows the
+    /// window to change with the level passed to reset
+    #[serde(default)]
+    pub window_uncompressed: usize,
     pub space_size: usize,
     /// advertised window (>= space size)
     pub window: usize,
@@ -59,6 +70,8 @@ struct Piece {
 pub struct ScriptedMatcher {
     space_size: usize,
     window: usize,
+    /// windows by level: [after reset(Uncompressed), after reset(anything else)]
+    level_windows: [usize; 2],
     /// all bytes committed since the last reset (the matcher's own copy)
     history: Vec<u8>,
     last_start: usize,
@@ -82,6 +95,7 @@ impl ScriptedMatcher {
         ScriptedMatcher {
             space_size,
             window,
+            level_windows: [window, window],
             history: Vec::new(),
             last_start: 0,
             rng: Rng::new(seed),
@@ -97,6 +111,10 @@ impl ScriptedMatcher {
             parse_digest: Digest::new(),
             invalid_parse: None,
         }
+    }
+
+    pub fn set_level_windows(&mut self, uncompressed: usize, other: usize) {
+        self.level_windows = [uncompressed.max(self.space_size), other.max(self.space_size)];
     }
 
     pub fn set_policies(&mut self, p: &[Policy]) {
@@ -303,9 +321,14 @@ impl Matcher for ScriptedMatcher {
             handle_sequence(Sequence::Literals { literals: &self.history[p..p + tail] });
         }
     }
-    fn reset(&mut self, _level: CompressionLevel) {
+    fn reset(&mut self, level: CompressionLevel) {
         self.history.clear();
         self.last_start = 0;
+        // "May change after a call to reset with a different compression level"
+        self.window = match level {
+            CompressionLevel::Uncompressed => self.level_windows[0],
+            _ => self.level_windows[1],
+        };
     }
     fn window_size(&self) -> u64 {
         self.window as u64
@@ -348,8 +371,13 @@ impl Engine for C16 {
             let space_size = r.urange(1025, 4000);
             let base = if r.chance(1, 2) { Content::Skewed { len: space_size, seed: r.next_u64(), skew: r.urange(180, 228) as u8 } } else { Content::Alphabet { symbols: r.urange(140, 250) as u16, len: space_size, seed: r.next_u64() } };
             let n = r.urange(2, 4);
-            let parts: Vec<Content> = (0..n).map(|_| base.clone()).collect();
-            return C16Plan { space_size, window: space_size.max(1024), parse_seed: r.next_u64(), jobs: vec![Job16 { content: Content::Concat(parts), policies: vec![Policy::LiteralOnly], chunks: vec![] }] };
+            let mut parts: Vec<Content> = (0..n).map(|_| base.clone()).collect();
+            if r.chance(1, 2) {
+                // first a block that clearly keeps its own Huffman table (another distribution), so that the decoder
+                // already holds a table when the break-even blocks arrive
+                parts.insert(0, Content::Alphabet { symbols: *r.pick(&[8u16, 16, 40]), len: space_size, seed: r.next_u64() });
+            }
+            return C16Plan { window_uncompressed: 0, space_size, window: space_size.max(1024), parse_seed: r.next_u64(), jobs: vec![Job16 { fastest: true, content: Content::Concat(parts), policies: vec![Policy::LiteralOnly], chunks: vec![] }] };
         }
         let big = r.chance(1, 12);
         let space_size = if big { 128 * 1024 } else { *r.pick(&[1usize, 2, 3, 5, 16, 100, 1024, 1025, 1500, 1725, 2034, 2798, 4096, 10_000, 40_000]) };
@@ -375,9 +403,10 @@ impl Engine for C16 {
             let all = [Policy::LiteralOnly, Policy::Greedy, Policy::MinLength, Policy::FarFirst, Policy::ZeroLiteralChains, Policy::Alternating, Policy::Mixed];
             let np = r.urange(1, 3);
             let policies: Vec<Policy> = (0..np).map(|_| *r.pick(&all)).collect();
-            jobs.push(Job16 { content: Content::Concat(parts), policies, chunks: if r.chance(1, 2) { vec![] } else { crate::driver::gen_chunks(&mut r) } });
+            jobs.push(Job16 { fastest: !r.chance(1, 5), content: Content::Concat(parts), policies, chunks: if r.chance(1, 2) { vec![] } else { crate::driver::gen_chunks(&mut r) } });
         }
-        C16Plan { space_size, window, parse_seed: r.next_u64(), jobs }
+        let window_uncompressed = if r.chance(1, 3) { space_size.max(1024) } else { 0 };
+        C16Plan { window_uncompressed, space_size, window, parse_seed: r.next_u64(), jobs }
     }
 
     fn exec(&self, plan: &C16Plan, stats: &mut Stats, log: Option<&mut Vec<Value>>) -> Result<RunOutcome, HarnessError> {
@@ -395,7 +424,15 @@ impl Engine for C16 {
             // the policies of this frame
             let mut m = comp.replace_matcher(ScriptedMatcher::new(plan.space_size, plan.window, 0));
             m.set_policies(&job.policies);
+            m.set_level_windows(if plan.window_uncompressed == 0 { plan.window } else { plan.window_uncompressed }, plan.window);
             let _ = comp.replace_matcher(m);
+            comp.set_compression_level(if job.fastest { CompressionLevel::Fastest } else { CompressionLevel::Uncompressed });
+            if !job.fastest {
+                stats.inc("probe.frame_at_level_uncompressed");
+            }
+            if plan.window_uncompressed != 0 && plan.window_uncompressed != plan.window {
+                stats.inc("probe.window_depends_on_level");
+            }
             let script = SourceScript { chunks: job.chunks.clone(), eof_at: None, faults: vec![], pauses: vec![] };
             comp.set_source(SimReader::new(input, &script));
             comp.set_drain(SimSink::new(&SinkScript::default()));
@@ -564,6 +601,8 @@ impl Engine for C16 {
             "policy.zero_literal_chains",
             "policy.min_length",
             "policy.far_first",
+            "probe.frame_at_level_uncompressed",
+            "probe.window_depends_on_level",
             "fault.source_short_read",
         ]
     }
